@@ -31,13 +31,17 @@ UniformClause1(t) ==
     IN IF tot = 0 THEN "skip"
        ELSE IF \E b \in B : AbsI(CountOf(t, <<b>>) * tot - t.N * m[b]) > t.N * 2 + ((Z * (ISqrt(t.N) + 1) * tot) \div 2) THEN "uniform-cell-frequency"
        ELSE "ok"
-\* grid: deterministic; every box's share within a discretisation bound  c / sqrt(n)  (+ cut-box slack)
+\* grid: deterministic; a box expecting E points holds E up to the discretisation error of a regular arrangement along the
+\* box perimeter, <= 2 sqrt(E) + 4 (largest observed on the unchanged tree: 1.4 sqrt(E) in full boxes), plus, for boxes cut by
+\* the boundary, the uncertainty of the lattice mass (2 g of g*g lattice points)
 GridClause2(t) ==
     LET B == Boxes2(t)  g == Sc(t).g
         m == [b \in B |-> Mass2(t, <<b[1], b[2]>>)]
         tot == SumOver(B, m)
+        tolc(b) == 2 * (ISqrt((t.N * m[b]) \div tot) + 1) + 4
+        cut(b) == m[b] > 0 /\ m[b] < g * g
     IN IF tot = 0 THEN "skip"
-       ELSE IF \E b \in B : AbsI(CountOf(t, <<b[1], b[2]>>) * tot - t.N * m[b]) > (((3 * (ISqrt(t.N) + 1) + ((t.N * 2 * g) \div (g * g))) * tot) \div 4) + t.N * 2 * g THEN "grid-not-evenly-spread"
+       ELSE IF \E b \in B : AbsI(CountOf(t, <<b[1], b[2]>>) * tot - t.N * m[b]) > tolc(b) * tot + (IF cut(b) THEN t.N * 2 * g ELSE 0) THEN "grid-not-evenly-spread"
        ELSE "ok"
 \* gaussian on an axis-aligned box [lo, lo + nb*size): boxes of size 1/4, mean and std in quarter units (std = 2 quarters = 1/2)
 GaussMass1(t, i) == LET s == Sc(t) IN PhiAt(s.lo4 + i + 1 - s.mean4[1]) - PhiAt(s.lo4 + i - s.mean4[1])
